@@ -106,8 +106,9 @@ theorem rep_spec (hR : Respects I S ops) (hS : S.length = 5) (sc : Schedule) (hg
       es.length = repLen cfg.loginit n ∧
       (∀ e ∈ es, e.rep = st.rep + 1 ∧ (cfg.loginit = false → e.kind ≠ .log .initialize) ∧ e.kind ≠ .init) ∧
       (∃ cur : List Ref, five.map st'.regs = cur.map some ∧ cur.length = 5) ∧
-      ∀ (R : Item (View V) → Item (View V) → Bool), ReflOnRefs R → ∀ (rest : List (Event (View V))),
-        checkRep R V0 cfg.loginit n (es ++ rest) = some rest := by
+      (∀ (R : Item (View V) → Item (View V) → Bool), ReflOnRefs R → ∀ (rest : List (Event (View V))),
+        checkRep R V0 cfg.loginit n (es ++ rest) = some rest) ∧
+      st'.t = n + 1 := by
   have hV : V0.length = 5 := by rw [← g.svals, vals_length, hS]
   unfold wfRep at hrp
   cases hsp : splitAdvance sc.evolveRep with
@@ -164,7 +165,7 @@ theorem rep_spec (hR : Respects I S ops) (hS : S.length = 5) (sc : Schedule) (hg
       rename_i c0 c1
       have hcur0 : cur = c0.rets := wire m0.rets hcur O0.symm
       have l5 : cur.length = 5 := by rw [hcur0, ← tokRefs_length m0.rets, L0]
-      obtain ⟨s2, es, cur2, q2, g2, tr2, _, rp2, ng2, f2, l2, len2, all2, chk2⟩ :=
+      obtain ⟨s2, es, cur2, q2, g2, tr2, tt2, rp2, ng2, f2, l2, len2, all2, chk2⟩ :=
         gens_spec (cfg := cfg) hR hS sc hg n g1 cur hfive l5
       rw [q2] at hE
       have t0 : c0.t = 0 := by have := m0.t; rw [T0] at this; exact this
@@ -175,7 +176,7 @@ theorem rep_spec (hR : Respects I S ops) (hS : S.length = 5) (sc : Schedule) (hg
       have log_ok : evOk V0 (.log .initialize) 0 c1 = true := by
         simp [evOk, m1.kind, K1, t1, m1.start]
       have a1' : c1.args.take 5 = c0.rets := wire m0.rets (tokRefs_take m1.args 5) A1
-      refine ⟨s2, c0 :: c1 :: es, hE, g2, ?_, ?_, ?_, ?_, ?_, ⟨cur2, f2, l2⟩, ?_⟩
+      refine ⟨s2, c0 :: c1 :: es, hE, g2, ?_, ?_, ?_, ?_, ?_, ⟨cur2, f2, l2⟩, ?_, by rw [tt2, hT1]; omega⟩
       · rw [tr2, htr]; simp
       · rw [rp2, hP1]
       · rw [ng2, hN1]
@@ -205,14 +206,14 @@ theorem rep_spec (hR : Respects I S ops) (hS : S.length = 5) (sc : Schedule) (hg
       rename_i c0
       have hcur0 : cur = c0.rets := wire m0.rets hcur O0.symm
       have l5 : cur.length = 5 := by rw [hcur0, ← tokRefs_length m0.rets, L0]
-      obtain ⟨s2, es, cur2, q2, g2, tr2, _, rp2, ng2, f2, l2, len2, all2, chk2⟩ :=
+      obtain ⟨s2, es, cur2, q2, g2, tr2, tt2, rp2, ng2, f2, l2, len2, all2, chk2⟩ :=
         gens_spec (cfg := cfg) hR hS sc hg n g1 cur hfive l5
       rw [q2] at hE
       have t0 : c0.t = 0 := by have := m0.t; rw [T0] at this; exact this
       have hd1 : evOk V0 (.op .evaluate) 0 c0 = true := by simp [evOk, m0.kind, K0, t0, m0.start]
       have hd2 : c0.argVals.take 5 = V0 := pristine_take m0 hV PR0
       have hd3 : c0.retItems.length = 5 := by rw [retItems_length _ m0.retVals, ← hcur0, l5]
-      refine ⟨s2, c0 :: es, hE, g2, ?_, ?_, ?_, ?_, ?_, ⟨cur2, f2, l2⟩, ?_⟩
+      refine ⟨s2, c0 :: es, hE, g2, ?_, ?_, ?_, ?_, ?_, ⟨cur2, f2, l2⟩, ?_, by rw [tt2, hT1]; omega⟩
       · rw [tr2, htr]; simp
       · rw [rp2, hP1]
       · rw [ng2, hN1]
@@ -256,19 +257,20 @@ theorem reps_spec (hR : Respects I S ops) (hS : S.length = 5) (sc : Schedule) (h
       es.map (fun e => e.rep) = repsOf st.rep cfg.loginit ngen n ∧
       (∀ e ∈ es, (cfg.loginit = false → e.kind ≠ .log .initialize) ∧ e.kind ≠ .init) ∧
       (0 < n → ∃ cur : List Ref, five.map st'.regs = cur.map some ∧ cur.length = 5) ∧
-      ∀ (R : Item (View V) → Item (View V) → Bool), ReflOnRefs R → ∀ (rest : List (Event (View V))),
-        checkReps R V0 cfg.loginit ngen n (es ++ rest) = some rest := by
+      (∀ (R : Item (View V) → Item (View V) → Bool), ReflOnRefs R → ∀ (rest : List (Event (View V))),
+        checkReps R V0 cfg.loginit ngen n (es ++ rest) = some rest) ∧
+      (0 < n → st'.t = ngen + 1) := by
   induction n with
   | zero =>
     intro st g hn
     exact ⟨st, [], rfl, g, by simp, by simp, hn, by simp [repsOf_zero], by simp, by simp,
-      fun R _ rest => by simp [checkReps]⟩
+      fun R _ rest => by simp [checkReps], by simp⟩
   | succ n ih =>
     intro st g hn
-    obtain ⟨s1, es1, q1, g1, tr1, rp1, ng1, len1, all1, held1, chk1⟩ :=
+    obtain ⟨s1, es1, q1, g1, tr1, rp1, ng1, len1, all1, held1, chk1, clk1⟩ :=
       rep_spec (cfg := cfg) hR hS sc hg he hrp ngen g hn
-    obtain ⟨s2, es2, q2, g2, tr2, rp2, ng2, reps2, all2, held2, chk2⟩ := ih g1 ng1
-    refine ⟨s2, es1 ++ es2, ?_, g2, ?_, ?_, ng2, ?_, ?_, ?_, ?_⟩
+    obtain ⟨s2, es2, q2, g2, tr2, rp2, ng2, reps2, all2, held2, chk2, clk2⟩ := ih g1 ng1
+    refine ⟨s2, es1 ++ es2, ?_, g2, ?_, ?_, ng2, ?_, ?_, ?_, ?_, ?_⟩
     · show iter _ n (execList (execE ops cfg sc) sc.evolveRep st) = s2
       rw [q1, q2]
     · rw [tr2, tr1, List.append_assoc]
@@ -295,6 +297,12 @@ theorem reps_spec (hR : Respects I S ops) (hS : S.length = 5) (sc : Schedule) (h
       rw [List.append_assoc]
       simp only [checkReps, chk1 R hRR (es2 ++ rest)]
       exact chk2 R hRR rest
+    · intro _
+      rcases Nat.eq_zero_or_pos n with h0 | hpos
+      · subst h0
+        have : s2 = s1 := by rw [← q2]; rfl
+        rw [this]; exact clk1
+      · exact clk2 hpos
 
 /-! ### initialisation phase -/
 
@@ -365,7 +373,8 @@ theorem init_spec {st : State σ V} (hr : Ready I ops st) :
       st'.regs = st.regs ∧ (startRefs ops st).length = 5 ∧ V0.length = 5 ∧ V0.all Option.isSome = true ∧
       ((st.start.all Option.isSome = true ∧ es = [] ∧ V0 = startVals cfg.depth st.heap st.start) ∨
        (st.start.all Option.isSome = false ∧ es = [initEvent ops cfg st] ∧
-          (initEvent ops cfg st).retVals = V0)) := by
+          (initEvent ops cfg st).retVals = V0)) ∧
+      st'.t = st.t := by
   have hvalid : ∀ s ∈ startRefs ops st, s < (startHeap ops st).length :=
     fun s hs => lt_of_lt_of_le (hr.region s (InReg.of_mem hs)) hr.n0le
   cases hall : st.start.all Option.isSome with
@@ -374,7 +383,7 @@ theorem init_spec {st : State σ V} (hr : Ready I ops st) :
     have hH : startHeap ops st = st.heap := by simp [startHeap, hall]
     have hN : startN0 ops st = st.n0 := by simp [startN0, hall]
     have hst := all_isSome_eq _ hall
-    refine ⟨st, [], vals cfg.depth st.heap (startRefs ops st), ?_, ?_, by simp, rfl, rfl, rfl, hr.refs5, ?_, ?_, ?_⟩
+    refine ⟨st, [], vals cfg.depth st.heap (startRefs ops st), ?_, ?_, by simp, rfl, rfl, rfl, hr.refs5, ?_, ?_, ?_, rfl⟩
     · simp [execS, hr.nbad, hall]
     · have hO : startOst ops st = st.ost := by simp [startOst, hall]
       refine ⟨hr.nbad, by rw [hS]; exact hst, by rw [← hH]; exact hr.wf, by rw [← hH, ← hN]; exact hr.n0le,
@@ -394,7 +403,7 @@ theorem init_spec {st : State σ V} (hr : Ready I ops st) :
     have i1 : (ops.init st.ost st.heap).2.2.length = 5 := by rw [← hS]; exact hr.refs5
     refine ⟨afterInit ops cfg st, [initEvent ops cfg st],
       vals cfg.depth (ops.init st.ost st.heap).2.1 (ops.init st.ost st.heap).2.2, ?_, ?_, rfl, rfl, rfl, rfl,
-      hr.refs5, ?_, ?_, ?_⟩
+      hr.refs5, ?_, ?_, ?_, rfl⟩
     · simp only [execS, hr.nbad, hall, i1, afterInit, initEvent]; simp
     · have hwf : WFH (afterInit ops cfg st).heap := by
         show WFH (ops.init st.ost st.heap).2.1
@@ -442,7 +451,8 @@ theorem pre_spec (sc : Schedule) (hp : wfPre sc = true) {st : State σ V} (hr : 
       (startRefs ops st).length = 5 ∧ V0.length = 5 ∧ V0.all Option.isSome = true ∧
       ((st.start.all Option.isSome = true ∧ es = [] ∧ V0 = startVals cfg.depth st.heap st.start) ∨
        (st.start.all Option.isSome = false ∧ es = [initEvent ops cfg st] ∧
-          (initEvent ops cfg st).retVals = V0)) := by
+          (initEvent ops cfg st).retVals = V0)) ∧
+      st'.t = st.t := by
   have hstrip : execList (execE ops cfg sc) sc.evolvePre { st with ngen := cfg.ngen } =
       execList (execE ops cfg sc) (strip sc.evolvePre) { st with ngen := cfg.ngen } :=
     (execList_strip _ (fun st => execE_skip sc st) _ _).symm
@@ -538,11 +548,12 @@ theorem evolve_wf (sc : Schedule) (hwf : WellFormed sc = true) {st : State σ V}
       (∀ e ∈ es1, (cfg.loginit = false → e.kind ≠ .log .initialize) ∧ e.kind ≠ .init) ∧
       (0 < cfg.nrep → ∃ cur : List Ref, five.map st'.regs = cur.map some ∧ cur.length = 5) ∧
       (cfg.nrep = 0 → st'.regs = st.regs) ∧
-      (startRefs ops st).length = 5 := by
+      (startRefs ops st).length = 5 ∧
+      (0 < cfg.nrep → st'.t = n + 1) ∧ (cfg.nrep = 0 → st'.t = st.t) := by
   simp only [WellFormed, Bool.and_eq_true] at hwf
   obtain ⟨⟨⟨hpre, hempty⟩, hgen⟩, hrep⟩ := hwf
-  obtain ⟨s1, es0, V0, q1, g1, tr1, rp1, ng1, rg1, hS, hl, hs, hcase⟩ := pre_spec (cfg := cfg) sc hpre hr
-  obtain ⟨s2, es1, q2, g2, tr2, rp2, _, reps2, all2, held2, chk2⟩ :=
+  obtain ⟨s1, es0, V0, q1, g1, tr1, rp1, ng1, rg1, hS, hl, hs, hcase, clk1⟩ := pre_spec (cfg := cfg) sc hpre hr
+  obtain ⟨s2, es1, q2, g2, tr2, rp2, _, reps2, all2, held2, chk2, clk2⟩ :=
     reps_spec (cfg := cfg) hR hS sc hgen hempty hrep n cfg.nrep g1 (ng1.trans hn)
   have chk : ∀ (R : Item (View V) → Item (View V) → Bool), ReflOnRefs R →
       checkReps R V0 cfg.loginit n cfg.nrep es1 = some [] := by
@@ -552,7 +563,7 @@ theorem evolve_wf (sc : Schedule) (hwf : WellFormed sc = true) {st : State σ V}
   have hpost : strip sc.evolvePost = [] := by
     simp only [wfEmpty, Bool.and_eq_true, beq_iff_eq] at hempty
     exact hempty.1.1
-  refine ⟨s2, es0, es1, V0, ?_, g2, ?_, ?_, ?_, ?_, ?_, chk, ?_, all2, held2, ?_, hS⟩
+  refine ⟨s2, es0, es1, V0, ?_, g2, ?_, ?_, ?_, ?_, ?_, chk, ?_, all2, held2, ?_, hS, clk2, ?_⟩
   · show execList (execE ops cfg sc) sc.evolvePost
         (iter (execList (execE ops cfg sc) sc.evolveRep) cfg.nrep
           (execList (execE ops cfg sc) sc.evolvePre { st with ngen := cfg.ngen })) = s2
@@ -578,6 +589,10 @@ theorem evolve_wf (sc : Schedule) (hwf : WellFormed sc = true) {st : State σ V}
     rw [h0] at q2
     have : s2 = s1 := q2.symm
     rw [this, rg1]
+  · intro h0
+    rw [h0] at q2
+    have : s2 = s1 := q2.symm
+    rw [this, clk1]
 
 end
 end Program
